@@ -189,6 +189,13 @@ def _(c):
     c.ensures("def", "result == (self.state == TransactionState.FATAL_ERROR)")
 
 
+@contract(MOD + ":TransactionManager.has_abortable_error", ["C16", "C07"])
+def _(c):
+    c.self_("TransactionManager")
+    c.returns(BOOL)
+    c.ensures("def", "result == (self.state == TransactionState.ABORTABLE_ERROR)")
+
+
 @contract(MOD + ":TransactionManager.needs_transaction_commit", ["C16", "C07"])
 def _(c):
     c.self_("TransactionManager")
